@@ -413,6 +413,21 @@ impl<'a, I: Iterator<Item = KV<'a>>, J: Iterator<Item = KV<'a>>, F: Fn(&KV<'a>, 
     spec fn takes_a(a: Seq<KV<'a>>, b: Seq<KV<'a>>) -> bool { a.len() > 0 && (b.len() == 0 || *a[0].0 <= *b[0].0) }
     spec fn takes_b(a: Seq<KV<'a>>, b: Seq<KV<'a>>) -> bool { b.len() > 0 && (a.len() == 0 || *b[0].0 <= *a[0].0) }
 
+//@extract fn MergeOnceWith::new
+//@ file: incremental-map/src/symmetric_fold.rs
+//@ impl: impl<I: Iterator, J: Iterator, FCmp: Fn(&I::Item, &J::Item) -> Ordering> MergeOnceWith<I, J, FCmp>
+//@ name: new
+//@ as: fn new(a: I, b: J, fcmp: F) -> (r: Self)
+//@ rule R8: `a.peekable()` => `vx_peekable(a)` x1
+//@ rule R8: `b.peekable()` => `vx_peekable(b)` x1
+//@ props: C18
+//@ contract:
+//@|     ensures
+//@|         r.fused is None && r.fcmp == fcmp, // [starts-unfused-with-the-given-comparator]
+//@|         r.va() == vstd::std_specs::iter::IteratorSpec::remaining(&a), // [left-stream-is-a]
+//@|         r.vb() == vstd::std_specs::iter::IteratorSpec::remaining(&b), // [right-stream-is-b]
+//@end
+
 //@extract fn MergeOnceWith::next
 //@ file: incremental-map/src/symmetric_fold.rs
 //@ impl: impl<I, J, FCmp> Iterator for MergeOnceWith<I, J, FCmp>
